@@ -259,7 +259,10 @@ void backend () {
   call_heart_beat ();
 
   if (setjmp (econ.context))
-    restore_context (&econ);
+    {
+      restore_context (&econ);
+      clear_error_state (); /* later evaluations must not inherit a limit mark */
+    }
 
   if (MAIN_OPTION(console_mode))
     init_console_user(0);
@@ -383,7 +386,10 @@ static void look_for_objects_to_swap () {
 
   save_context (&econ);
   if (setjmp (econ.context))
-    restore_context (&econ); /* catch errors in reset() or clean_up() */
+    {
+      restore_context (&econ); /* catch errors in reset() or clean_up() */
+      clear_error_state ();
+    }
 
   for (ob = obj_list; ob; ob = next_ob)
     {
@@ -711,6 +717,7 @@ void preload_objects (int eflag) {
   if (setjmp (econ.context))
     {
       restore_context (&econ); /* catch errors in master apply preload() */
+      clear_error_state ();
       opt_warn (1, "Error preloading file %d/%d, continuing.", ix + 1, prefiles->size);
       ix++;
     }
